@@ -2,6 +2,7 @@ CONSTANTS
  Mode = "gen"
  HistLen = 2
  LenientRelabel = FALSE
+ NeedGraph = FALSE
  RestartSets = {{}}
  Pinned = FALSE
 INIT IInit
